@@ -5,7 +5,7 @@
      encode : N -> cstate -> list N               state_write_content + state_write_thread, first argument = time(0)
      normalise : N -> cstate -> cstate            what a save followed by a load does to a state
      wf : cstate -> Prop                          the invariants of a loaded / scanned array (CodecRoundTrip.wf)       *)
-From Coq Require Import NArith List.
+From Coq Require Import NArith List Bool.
 From Snap.Codec Require Import Varint CodecModel CodecProofs CodecRoundTrip CodecRewrite CodecExample.
 Import ListNotations.
 Local Open Scope N_scope.
@@ -89,3 +89,16 @@ Print Assumptions C10_rewrite_byte_identical.
 
 Example C10_unclamped_satisfiable : wf ex_state /\ 8 <= T0 + 100 /\ unclamped (T0 + 100) ex_state.
 Proof. exact (conj ex_wf (conj (proj2 ex_clock_ok) ex_unclamped)). Qed.
+
+(* 5. The clean-up before the save (fs_position_clear_deleted; in the C it splits the extents of the deleted files, in the model
+      the DELETED blocks are the map  position -> hash  itself): a position that is kept keeps its hash, a dropped one has none;
+      and through save + load every surviving DELETED block has the hash that disk had at that position. *)
+Theorem C10_clear_deleted_keeps_hashes : forall s d pos,
+  deleted_at (prep_disk s (alloc_size s) d) pos =
+  if negb (pos <? alloc_size s) || position_required s pos then deleted_at d pos else None.
+Proof. exact clear_deleted_keeps_hashes. Qed.
+Print Assumptions C10_clear_deleted_keeps_hashes.
+Theorem C10_saved_deleted_hash : forall now s d', In d' (c_disks (normalise now s)) -> forall pos h,
+  deleted_at d' pos = Some h -> exists d, In d (c_disks s) /\ cd_name d = cd_name d' /\ deleted_at d pos = Some h.
+Proof. exact saved_deleted_hash. Qed.
+Print Assumptions C10_saved_deleted_hash.
